@@ -142,9 +142,36 @@ TEXT["C17"] = dict(ref="DESIGN.md 4 C17", technique="TLC enumeration of hostile 
     note="Bounded as C16. Hostile ids are drawn from a reserved range; what the client answers to a hostile message under that message's own id is not compared (only that everything else still works). "
     "Byte-level hostility needs a serializer and belongs to the transport family (C15). Structural enumeration, not all messages.")
 
+TEXT["C14"] = dict(ref="DESIGN.md 4 C14", technique="TLC enumeration of message and non-message vectors from the codec specification (Codec.tla) executed on the three serializers + TLC validation of every logged round trip",
+    level="spec/Codec.tla states the WAMP data model (integers up to 2^53 written symbolically, floats, strings, booleans, null, nested lists and dicts), the 24 message shapes with their "
+    "field kinds, the list form (trailing empty payload fields omitted, empty positional arguments kept before keyword arguments) and which lists are not messages. TLC enumerates every message shape "
+    "x payload shape, and for every shape and field position a value of every incompatible kind, unknown message codes and non-lists; the harness builds each message from the current tree's wamp "
+    "package, round-trips it through the JSON, MessagePack and CBOR serializers (decoding the wire list generically for its length), logs the results in the abstract form, and TLC evaluates on every "
+    "line: equal message back from each format, the three formats agree, list length as specified, an error and no message for every non-message. Prefixes and single-octet substitutions of sampled "
+    "encodings are fed to Deserialize/DeserializeDataItem: a panic is the crash verdict.",
+    note="Bounded: values up to depth 3 over 12 atoms (boundary integers 2^53, 2^53-1, -1, non-ASCII strings, empty containers). The clause 'deserialising arbitrary bytes never panics' is "
+    "covered only for the mutation family of model-generated encodings (an explicit-state model cannot enumerate byte strings). Binary values are not generated. Trusted: TLC, the value "
+    "normalisation in harness/codec_test.go (integers equal up to numeric representation).")
+TEXT["C15"] = dict(ref="DESIGN.md 4 C15", technique="TLC model checking of the rawsocket wire specification (MCWire.tla) + TLC-generated octet-level scenarios against the real rawsocket peer + the routing scenarios replayed over rawsocket/websocket x 3 serializers, all validated by TLC",
+    level="spec/Wire.tla specifies one rawsocket connection from the wire: the four handshake octets (agreement on serializer and on each side's length limit, clean failure otherwise), frames "
+    "(a well-formed message within the announced limit is delivered in order; a frame above the limit, truncated or of reserved type ends that connection and hands the router nothing; PING is answered "
+    "by PONG with the same payload), and router-side sends (a message above the client's limit or beyond what the 24 bit length field can carry is dropped whole, the following ones arrive intact). "
+    "Leg 1 (MCWire.tla): TLC checks prefix-closed FIFO delivery in both directions, limit agreement and that an ended connection stays ended over every sequence of 5-6 wire events. Conformance (a): "
+    "TLC -simulate of GenWire.tla generates octet-level scenarios (sizes at limit-1, limit, limit+1 for several negotiated limits, header and payload in one or two writes, lists that only resemble "
+    "messages) executed against transport.AcceptRawSocket over an in-memory pipe; TLC validates octets read, messages delivered and connection end against TraceWire.tla. Conformance (b), "
+    "interchangeability: routing scenarios of the core family (pub/sub, RPC, cancel, meta API, event history, testaments, disclosure) run with every network session attached over rawsocket or "
+    "websocket with JSON, MessagePack or CBOR and must be accepted by the same Trace.tla as in-process runs (hence equal up to numeric representation).",
+    note=NOTE + "The websocket peer is driven through an in-memory implementation of transport.WebsocketConnection; gorilla's framing, TLS and the HTTP upgrade are not modelled. The client side of the "
+    "rawsocket handshake (ConnectRawSocketPeer dials a real socket) is not exercised. What a departing network session still receives in the step it leaves is compared on its session-control messages only. "
+    "16 MiB frames only in the thorough tier.")
+
 NOT_APPLICABLE = {}
 
 ENGINES = [
+    {"name": "codec", "path": "/verif/tools/fam_codec.py; spec/Codec.tla; harness/codec_test.go",
+     "serves_properties": ["C14"], "kind_free_text": "TLC-enumerated message / non-message vectors run through the three serializers, results validated by TLC"},
+    {"name": "wire", "path": "/verif/tools/fam_wire.py; spec/Wire.tla MCWire.tla GenWire.tla TraceWire.tla Trace.tla; harness/wire.go wire_test.go",
+     "serves_properties": ["C15"], "kind_free_text": "TLC model checking and scenario generation for the rawsocket wire, octet-level executor, routing scenarios over network transports, TLC trace validation"},
     {"name": "client", "path": "/verif/tools/fam_client.py; spec/Cli.tla GenCli.tla TraceCli.tla CliConc.tla Hostile.tla; harness/client_test.go",
      "serves_properties": ["C16", "C17"], "kind_free_text": "TLC model checking of the PlusCal client skeleton, TLC script generation, execution against the real client with a scripted router under synctest, TLC trace validation"},
     {"name": "funcs", "path": "/verif/tools/fam_funcs.py; spec/URI.tla IDs.tla MCFuncs.tla Funcs.tla; harness/funcs_test.go",
